@@ -682,6 +682,9 @@ fn builder(rep: &mut Report, model: &mut Model, ctx: &Ctx, rng: &mut Rng) {
     use mla::Layers;
     use mla::config::ArchiveWriterConfig;
     let n = ctx.budget(150, 3000);
+    // the symmetric keys and archive nonces of every encrypted archive built below: never all-zero, never twice
+    let mut seen_keys: std::collections::HashSet<Vec<u8>> = std::collections::HashSet::new();
+    let mut seen_nonces: std::collections::HashSet<Vec<u8>> = std::collections::HashSet::new();
     for _ in 0..n {
         let dflt = rng.chance(1, 2);
         let mut c = if dflt { ArchiveWriterConfig::default() } else { ArchiveWriterConfig::new() };
@@ -752,6 +755,14 @@ fn builder(rep: &mut Report, model: &mut Model, ctx: &Ctx, rng: &mut Rng) {
                     for (i, sk) in secrets.iter().enumerate() {
                         if open_with(&bytes, &[*sk], "f").ok().as_ref() != Some(&content) {
                             rep.violation("oracle", "C07/recipient", json!({"check":"recipient-opens","builder":true}), &format!("recipient {i} of {} (registered through the builder calls of this case) cannot open the archive", secrets.len()), case.clone());
+                            if rep.full() { return; } continue;
+                        }
+                    }
+                    // freshness whatever the builder history: the key and the nonce of this archive were never seen
+                    let nonce_now = h.nonce.clone().unwrap_or_default().to_vec();
+                    if let Some(k) = rec_key(&bytes, &secrets) {
+                        if k == [0u8; 32] || !seen_keys.insert(k.to_vec()) || !seen_nonces.insert(nonce_now.clone()) {
+                            rep.violation("oracle", "C07/fresh", json!({"check":"builder-fresh"}), &format!("the symmetric key {} / archive nonce {} of an archive built from this configuration is all-zero or was already used by an earlier archive of this run", hx(&k), hx(&nonce_now)), case.clone());
                             if rep.full() { return; } continue;
                         }
                     }
